@@ -170,6 +170,53 @@ class Enumerator:
             return None
         return g
 
+    _BODY_CACHE: dict = {}
+
+    def _callee_body(self, call: ast.Call, g: FuncInfo) -> List[ast.stmt]:
+        """Body of the helper for this call site, with the parameters that receive a simple argument (name, attribute
+        chain, constant, lambda) replaced by that argument - so that rules reading the nodes of the events see, e.g.,
+        self._read_from_socket(self._READ_BATTERY_INFO) instead of self._read_from_socket(command)."""
+        key = (id(call), id(g.node))
+        hit = Enumerator._BODY_CACHE.get(key)
+        if hit is not None and hit[0] is call:
+            return hit[1]
+        from .calls import arg_for
+        from .astutil import subst
+        stored = {n.id for n in ast.walk(g.node) if isinstance(n, ast.Name) and isinstance(n.ctx, (ast.Store, ast.Del))}
+        for n in ast.walk(g.node):
+            if isinstance(n, ast.ExceptHandler) and n.name:
+                stored.add(n.name)
+        names_g = stored | set(g.params)
+
+        def simple(a) -> bool:
+            if isinstance(a, (ast.Constant, ast.Name, ast.Lambda)):
+                return True
+            if isinstance(a, ast.Attribute):
+                return simple(a.value)
+            if isinstance(a, ast.JoinedStr):
+                return all(isinstance(v, ast.Constant) for v in a.values)
+            return False
+        env = {}
+        bound = g.cls is not None and not g.is_static and bool(g.params) and g.params[0] in ("self", "cls")
+        for pn in g.params[1:] if bound else g.params:
+            if pn in stored:
+                continue
+            a = arg_for(call, g, pn)
+            if a is None or not simple(a):
+                continue
+            own = set()
+            if isinstance(a, ast.Lambda):
+                own = {x.arg for x in a.args.args + a.args.kwonlyargs}
+            free = {n.id for n in ast.walk(a) if isinstance(n, ast.Name)} - own - {"self", "cls"}
+            if free & (names_g - {pn}):
+                continue      # the argument's names would be captured by the helper's own locals
+            if isinstance(a, ast.Name) and a.id == pn:
+                continue
+            env[pn] = a
+        body = [subst(st, env) for st in g.body] if env else list(g.body)
+        Enumerator._BODY_CACHE[key] = (call, body)
+        return body
+
     def _frame_ctx(self, call: ast.Call, g: FuncInfo, hctx: dict) -> dict:
         stack = hctx.get("__stack__", (self.fn.qualname,))
         same_self = isinstance(call.func, ast.Attribute) and isinstance(call.func.value, ast.Name) and call.func.value.id == "self" \
@@ -182,7 +229,7 @@ class Enumerator:
         ('done', return node | None) or ('raise', cls, origin)."""
         h2 = self._frame_ctx(call, g, hctx)
         start = evs + (Ev("enter", call, g),)
-        for e2, oc in self._block(g.body, start, h2):
+        for e2, oc in self._block(self._callee_body(call, g), start, h2):
             if oc[0] == "fall":
                 yield e2 + (Ev("exit", call, g),), ("done", None)
             elif oc[0] == "return":
@@ -255,7 +302,7 @@ class Enumerator:
                 continue
             e1 = e1 + (Ev("call", call),)
             h2 = self._frame_ctx(call, g, hctx)
-            for e2, oc2 in self._block(g.body, e1 + (Ev("enter", call, g),), h2):
+            for e2, oc2 in self._block(self._callee_body(call, g), e1 + (Ev("enter", call, g),), h2):
                 tail = (Ev("exit", call, g),) + ((Ev("await", atom),) if isinstance(atom, ast.Await) else ()) + (Ev("test", atom, outcome),)
                 if oc2[0] == "raise":
                     yield e2 + (Ev("exit", call, g),), oc2
@@ -420,10 +467,60 @@ class Enumerator:
                     else:
                         yield e3, oc3
 
+    _LOOP_CACHE: dict = {}
+
+    def _literal_iter(self, st, fn: FuncInfo):
+        """The literal tuple / list a for loop iterates over: written in place, or a local bound exactly once to one."""
+        if not isinstance(st, ast.For):
+            return None
+        it = st.iter
+        if isinstance(it, ast.Name) and not fn.is_lambda:
+            from .astutil import single_assignments
+            it = single_assignments(fn.node).get(it.id)
+            if isinstance(it, (ast.Tuple, ast.List)):
+                # the elements must still mean the same when the loop runs: no name of theirs is rebound in the function
+                stored = {n.id for n in ast.walk(fn.node) if isinstance(n, ast.Name) and isinstance(n.ctx, (ast.Store, ast.Del))}
+                if {n.id for n in ast.walk(it) if isinstance(n, ast.Name)} & stored:
+                    return None
+        if isinstance(it, (ast.Tuple, ast.List)) and len(it.elts) <= 8 and not any(isinstance(e, ast.Starred) for e in it.elts):
+            return it
+        return None
+
+    def _loop_body(self, st: ast.For, lit, i: int) -> List[ast.stmt]:
+        """Body of iteration i of a loop over a literal tuple, with the loop variable(s) replaced by the element's
+        (simple) expressions: for flag, table in ((self._has_battery, self._sensors_battery), ...)."""
+        key = (id(st), i)
+        hit = Enumerator._LOOP_CACHE.get(key)
+        if hit is not None and hit[0] is st:
+            return hit[1]
+        from .astutil import subst
+        el = lit.elts[i]
+        pairs = []
+        if isinstance(st.target, ast.Name):
+            pairs = [(st.target.id, el)]
+        elif isinstance(st.target, (ast.Tuple, ast.List)) and isinstance(el, (ast.Tuple, ast.List)) and len(el.elts) == len(st.target.elts) \
+                and all(isinstance(t, ast.Name) for t in st.target.elts):
+            pairs = [(t.id, e) for t, e in zip(st.target.elts, el.elts)]
+        stored = {n.id for b in st.body for n in ast.walk(b) if isinstance(n, ast.Name) and isinstance(n.ctx, (ast.Store, ast.Del))}
+
+        def simple(a) -> bool:
+            if isinstance(a, (ast.Constant, ast.Name)):
+                return True
+            if isinstance(a, ast.Attribute):
+                return simple(a.value)
+            if isinstance(a, (ast.Tuple, ast.List)):
+                return all(simple(x) for x in a.elts)
+            return False
+        env = {n: e for n, e in pairs if n not in stored and simple(e)
+               and not ({x.id for x in ast.walk(e) if isinstance(x, ast.Name)} & stored)}
+        body = [subst(b, env) for b in st.body] if env else list(st.body)
+        Enumerator._LOOP_CACHE[key] = (st, body)
+        return body
+
     def _for(self, st, evs, hctx, i):
         # a literal tuple / list has a known number of iterations: no early exhaustion, unrolled completely (up to 8)
-        exact = len(st.iter.elts) if isinstance(st.iter, (ast.Tuple, ast.List)) and len(st.iter.elts) <= 8 \
-            and not any(isinstance(e, ast.Starred) for e in st.iter.elts) and isinstance(st, ast.For) else None
+        lit = self._literal_iter(st, self._fn(hctx))
+        exact = len(lit.elts) if lit is not None else None
         if exact is not None:
             if i == exact:
                 yield from self._block(st.orelse, evs + (Ev("iter", st, "exit%d" % i),), hctx)
@@ -434,7 +531,7 @@ class Enumerator:
             if i >= self.unroll:
                 return
         e2 = evs + (Ev("iter", st, i),)
-        for e3, oc3 in self._block(st.body, e2, hctx):
+        for e3, oc3 in self._block(self._loop_body(st, lit, i) if exact is not None else st.body, e2, hctx):
             if oc3[0] in ("fall", "continue"):
                 yield from self._for(st, e3, hctx, i + 1)
             elif oc3[0] == "break":
